@@ -27,24 +27,32 @@ static struct passwd *v_getpwuid(uid_t uid);
 static uid_t v_geteuid(void) { return 7; }
 #define stat(p, s) v_stat(p, s)
 #ifdef __CPROVER__
-/* snprintf("%s/%s") as used by cfg_make_fullpath() */
+/* snprintf() with a format made of literal bytes and up to two %s (cfg_make_fullpath() uses "%s/%s"): the format is
+ * interpreted, so that a different but equivalent way of composing a name is not misjudged */
 static int v_snprintf(char *buf, size_t len, const char *fmt, const char *a, const char *b)
 {
-	size_t la = strlen(a), lb = strlen(b), i, o = 0;
+	size_t o = 0, i, f;
+	int narg = 0;
 
-	(void)fmt;
-	for (i = 0; i < la; i++, o++)
-		if (o + 1 < len)
-			buf[o] = a[i];
-	if (o + 1 < len)
-		buf[o] = '/';
-	o++;
-	for (i = 0; i < lb; i++, o++)
-		if (o + 1 < len)
-			buf[o] = b[i];
+	for (f = 0; f < 8 && fmt[f]; f++) {
+		if (fmt[f] == '%' && fmt[f + 1] == 's') {
+			const char *s = narg == 0 ? a : b;
+			size_t l = strlen(s);
+
+			narg++;
+			f++;
+			for (i = 0; i < l; i++, o++)
+				if (o + 1 < len)
+					buf[o] = s[i];
+		} else {
+			if (o + 1 < len)
+				buf[o] = fmt[f];
+			o++;
+		}
+	}
 	if (len > 0)
 		buf[o < len ? o : len - 1] = 0;
-	return (int)(la + 1 + lb);
+	return (int)o;
 }
 #define snprintf v_snprintf
 #endif
